@@ -203,7 +203,7 @@ func registerHarnessAPI(e *Engine) {
 
 // cryptoUF: the secret may legitimately flow into these (hash / ciphertext).
 func cryptoUF(op string) bool {
-	return strings.HasPrefix(op, "sha256byte#") || op == "enc" || op == "hexbyte"
+	return strings.HasPrefix(op, "sha256byte#") || op == "enc" || op == "hexbyte" || op == "md5hex"
 }
 
 func mentionsOutsideCrypto(t *Term, atoms map[*Term]struct{}) bool {
